@@ -46,9 +46,13 @@ def run(chk):
                        "push wx:for names, children, truncate) converts every dynamic value under exactly the script modules and the declarations of its enclosing elements, "
                        "innermost last, and restores the stack after every element; the model of that analysis is compared with the implementation on every generated and "
                        "directed template (corr:tag_scopes: converted expression and collected flag of every value, in visiting order). The generation-time scope stack "
-                       "(proc_gen) is exercised by the render oracle only",
-                       "slot: value scopes need dynamic-slot components, which the stub backend does not provide: covered by the parser-level stream only"]
+                       "(proc_gen) is exercised by the render oracle, and for wx:for item / index names (default, renamed, colliding with data fields and with each other "
+                       "across nesting) by corr:tagsem: the tag-level model resolves names with convertScopes (the function convert_resolves is about) and evaluates them; "
+                       "its trees are compared with the real compiler + runtime",
+                       "slot: value scopes of dynamic-slot content are exercised by the C06 / C07 oracles over the stub dynamic-slot component; here by the parser-level stream only"]
     chk.model_tie([("GE.Thm.C05", THEOREMS), ("GE.Thm.C05Tag", THM_TAG)])
+    from . import tagsem
+    tagsem.stream(chk, chk.rng.fork("tagsem5"), 150 if quick else 3000)
     rng = chk.rng.fork("c05")
     # ---- stream 1: iterator + convert_scopes --------------------------------------------------
     trees = eg.enum_depth2()
